@@ -97,6 +97,10 @@ type Hooks struct {
 	OnClose func(p *Peer, err error)
 	// OnRequest is called for each request from the SUT.
 	OnRequest func(p *Peer, r Req)
+	// OnActive is called (with the peer's lock held: do not call back into the peer) when the
+	// piece the SUT has outstanding, un-cancelled block requests for at this peer changes
+	// (on=false: no outstanding request any more).
+	OnActive func(p *Peer, piece int, on bool)
 }
 
 // Limits the SUT is expected to respect towards this peer (for C09/C17 local checks).
@@ -132,6 +136,8 @@ type Peer struct {
 	afSent          map[uint32]bool // allowed-fast we granted
 	afRecv          map[uint32]bool // allowed-fast the SUT granted us
 	reqIn           []Req           // requests from the SUT we have not answered
+	actOn           bool
+	actPiece        uint32
 	reqOut          []Req           // our requests the SUT has not answered
 	reqCancelled    map[Req]int     // requests we cancelled (an answer may still arrive: cancel is advisory)
 	reqChokeDropped map[Req]int     // requests dropped by a choke from the SUT (non-fast)
@@ -316,6 +322,7 @@ func (p *Peer) finish(err error) error {
 	p.closed = true
 	p.closeErr = err
 	p.ClosedAt = simrt.Now()
+	p.actUpdate()
 	p.mu.Unlock()
 	p.conn.Close()
 	p.logf("connection ended: %v", err)
@@ -533,6 +540,7 @@ func (p *Peer) SetChoke(choke bool) {
 		if !p.fast() {
 			p.reqIn = nil
 			p.pendingServe = nil
+			p.actUpdate()
 		}
 	} else {
 		p.everUnchoked = true
@@ -550,6 +558,7 @@ func (p *Peer) SetChoke(choke bool) {
 			}
 		}
 		p.reqIn = keep
+		p.actUpdate()
 		ps := p.pendingServe[:0]
 		for _, r := range p.pendingServe {
 			if p.afSent[r.Index] {
@@ -767,6 +776,7 @@ func (p *Peer) handle(m Msg) {
 		r := Req{m.Index, m.Begin, m.Length}
 		p.reqIn = removeReq(p.reqIn, r)
 		p.pendingServe = removeReq(p.pendingServe, r)
+		p.actUpdate()
 		p.mu.Unlock()
 	case MsgReject:
 		if !p.fast() {
@@ -861,6 +871,7 @@ func (p *Peer) onRequest(r Req) {
 		simrt.Count("probe.peer.duplicate_request", 1)
 	}
 	p.reqIn = append(p.reqIn, r)
+	p.actUpdate()
 	// C17: outstanding requests within the limit
 	if lim := p.reqLimit(); lim > 0 && len(p.reqIn) > lim {
 		p.violate("C17", "requests_out.limit", "%d outstanding block requests from the SUT, limit %d", len(p.reqIn), lim)
@@ -868,6 +879,7 @@ func (p *Peer) onRequest(r Req) {
 	if p.amChoking && !p.afSent[r.Index] {
 		// we are choking: fast peers reject, others ignore
 		p.reqIn = removeReq(p.reqIn, r)
+		p.actUpdate()
 		if p.fast() {
 			go p.Send(EncReject(r.Index, r.Begin, r.Length))
 		}
@@ -875,6 +887,36 @@ func (p *Peer) onRequest(r Req) {
 	}
 	p.pendingServe = append(p.pendingServe, r)
 	notify(p.serveQ)
+}
+
+// actUpdate (lock held) tracks which piece the SUT is downloading from us, as visible on the
+// wire: the piece of its outstanding block requests.
+func (p *Peer) actUpdate() {
+	on := len(p.reqIn) > 0 && !p.closed
+	var idx uint32
+	if on {
+		idx = p.reqIn[len(p.reqIn)-1].Index
+	}
+	if on == p.actOn && (!on || idx == p.actPiece) {
+		return
+	}
+	if p.actOn && p.H.OnActive != nil {
+		p.H.OnActive(p, int(p.actPiece), false)
+	}
+	p.actOn, p.actPiece = on, idx
+	if on && p.H.OnActive != nil {
+		p.H.OnActive(p, int(idx), true)
+	}
+}
+
+// SutCaughtUp reports whether this peer has read everything the SUT wrote on the connection and
+// the SUT has not closed its end (so the peer's view of the SUT's requests is current).
+func (p *Peer) SutCaughtUp() bool {
+	if p.pair == nil {
+		return false
+	}
+	s := 1 - p.side
+	return !p.pair.Closed(s) && !p.pair.Closed(p.side) && p.pair.Consumed(s) == p.pair.BytesWritten(s)
 }
 
 func (p *Peer) reqLimit() int {
@@ -930,6 +972,7 @@ func (p *Peer) server() {
 				continue
 			}
 			p.reqIn = removeReq(p.reqIn, r)
+			p.actUpdate()
 			p.served++
 			served := p.served
 			p.mu.Unlock()
